@@ -221,9 +221,14 @@ def run(f, fixture, rep, cfg, tier):
         return True
     for (bb, rc) in residual_return_blocks(b):
         srcs = question_mark_source(b, rc)
+        # an inner `?` exit of a spliced-in helper that the outer `?` hands on: checked as an exit of its own in this loop
+        inner = [s_ for s_ in srcs if s_.decl == "std::ops::FromResidual::from_residual"]
+        srcs = [s_ for s_ in srcs if s_ not in inner]
         names = [s.decl for s in srcs] or ["?"]
         ok = all(q_ok(s) for s in srcs) and bool(srcs)
-        if not srcs:
+        if not srcs and inner:
+            ok, names = True, ["(inner `?` of an inlined helper)"]
+        if not srcs and not inner:
             # `helper(..)?` where the helper was spliced in: the propagated value is the helper's own Ok/Err construction, and
             # those error exits are already in err_assign_blocks (checked above against the allowed set)
             for lf in b.origins(rc.args[0], passthrough={}):
